@@ -283,7 +283,7 @@ def fromObj (cx : Ctx) : Nat → Cls → Obj → R Node
   | 0, _, _ => .error .fuel
   | fuel+1, c, o =>
     match cx.schema.ty c with
-    | none => .error (.internal "schema")
+    | none => .error (.model "schema")
     | some ty =>
       match leafFromObj cx ty o with
       | some r => r
@@ -463,7 +463,7 @@ def fromObj (cx : Ctx) : Nat → Cls → Obj → R Node
                         | none => .error .valueError
                 | some _ => fromObj cx fuel raw o
             | _ => .error .valueError
-        | _ => .error (.internal "unmodelled-class")
+        | _ => .error (.model "unmodelled-class")
 
 def fromObjAlts (cx : Ctx) : Nat → List Cls → Nat → Obj → R Node
   | 0, _, _, _ => .error .fuel
